@@ -67,11 +67,24 @@ def rule_a(ctx, ix, hub):
         for o in outs:
             seen |= cfg.reachable_from(o)
         return seen
-    it = branch(I, 'true')
+    from .. import cond
+
+    def active_label(n, field):
+        """The edge of the test taken when the counter / flag in ``field`` is set (> 0): the test may be written negated."""
+        fm = cond.formula(_xl(f.node, cfg.stmt[n].test))
+        env = {}
+        for a in cond.atoms(fm):
+            if field not in a:
+                raise AnalysisError('Hub.broadcast: the test `%s` mixes the %s state with something else' % (unparse(cfg.stmt[n].test), field))
+            # `x == 0`, `x < 1`: true when the counter is NOT set
+            env[a] = not (a.startswith('eq|0|') or (a.startswith('lt|') and a.endswith('|1')) or a.startswith('is|None|') or a.startswith('eq|False|'))
+        return 'true' if cond.evaluate(fm, env) else 'false'
+    li, lp_ = active_label(I, '_ignore'), active_label(P, '_paused')
+    it = branch(I, li)
     ctx.ob(R, f.construct, 'an ignored message is neither queued nor delivered', Q not in it and D not in it,
            detail='on the ignored branch Hub.broadcast still reaches %s' % ('the queue' if Q in it else 'delivery'),
            where=where(f, cfg.stmt[I]))
-    pt, pf = branch(P, 'true'), branch(P, 'false')
+    pt, pf = branch(P, lp_), branch(P, 'false' if lp_ == 'true' else 'true')
     ctx.ob(R, f.construct, 'while paused the message is queued and not delivered', Q in pt and D not in pt,
            detail='while a delay block is open Hub.broadcast %s' % ('delivers the message' if D in pt else 'does not queue the message'),
            where=where(f, cfg.stmt[P]))
